@@ -1214,12 +1214,12 @@ class Tree(DirectedGraph):
             # check if root_vertex is valid
             self._check_vertex(root_vertex)
             # check if the tree is properly defined given the root
-            if not np.allclose(
-                csgraph.breadth_first_tree(
-                    self.adjacency_matrix, root_vertex, directed=True
-                ).nonzero(),
-                self.adjacency_matrix.nonzero(),
-            ):
+            bfs_tree = csgraph.breadth_first_tree(
+                self.adjacency_matrix, root_vertex, directed=True
+            )
+            # compare the edge sets (the two sparse matrices may store the
+            # same edges in a different index order)
+            if (bfs_tree.astype(bool) != self.adjacency_matrix.astype(bool)).nnz != 0:
                 raise ValueError(
                     "The combination of adjacency matrix and root "
                     "vertex is not valid. BFS returns a different "
